@@ -181,16 +181,9 @@ func c09Progs(id int, rng *rand.Rand, feat map[string]int) []*Prog {
 			if arg == "" {
 				comma = ""
 			}
-			declared := false
-			for _, dm := range t.methods {
-				declared = declared || dm == m
-			}
-			if declared && !t.ptrRecv[m] {
-				site(nv+"rec(TAG, "+t.name+"."+m+"(v"+comma+arg+"))", "method-expr")
-			}
-			if declared && t.ptrRecv[m] {
-				site(nv+"rec(TAG, (*"+t.name+")."+m+"(&v"+comma+arg+"))\nrec(TAG, v)", "method-expr-ptr")
-			}
+			// both receiver kinds, declared or promoted: go/types keeps the valid ones
+			site(nv+"rec(TAG, "+t.name+"."+m+"(v"+comma+arg+"))", "method-expr")
+			site(nv+"rec(TAG, (*"+t.name+")."+m+"(&v"+comma+arg+"))\nrec(TAG, v)", "method-expr-ptr")
 			site("rec(TAG, §new"+fmt.Sprint(i)+"(3)."+m+"("+arg+"))", "method-on-nonaddressable")
 		}
 		for _, in := range ifaces {
@@ -204,20 +197,6 @@ func c09Progs(id int, rng *rand.Rand, feat map[string]int) []*Prog {
 				call = "i.Len(), i.M(3)"
 			case "error":
 				call = "i.Error()"
-			}
-			if in == "error" {
-				// compiled interface: only with the receiver kind of the declaration on the type itself (known finding otherwise)
-				declared := false
-				for _, dm := range t.methods {
-					declared = declared || dm == "Error"
-				}
-				if declared && !t.ptrRecv["Error"] {
-					site(nv+"var i "+in+" = v\nrec(TAG, "+call+")", "iface-assign-value")
-				}
-				if declared && t.ptrRecv["Error"] {
-					site(nv+"var i "+in+" = &v\nrec(TAG, "+call+")\nrec(TAG, v)", "iface-assign-pointer")
-				}
-				continue
 			}
 			site(nv+"var i "+in+" = v\nrec(TAG, "+call+")", "iface-assign-value")
 			site(nv+"var i "+in+" = &v\nrec(TAG, "+call+")\nrec(TAG, v)", "iface-assign-pointer")
@@ -260,11 +239,13 @@ func c09Valid(frag string) bool {
 func checkC09(r *fw.Run) {
 	r.SetRule("seeded random hierarchies of 3-6 named struct types (embedding by value and by pointer up to depth 3, fields and methods with names shadowed at different depths, value and pointer receivers, some embedded pointers left nil); for every type every candidate site is generated and kept only if go/types accepts it: field selectors through values and pointers, method calls, method values bound before the receiver changes, method expressions T.m and (*T).m, methods on non-addressable values, assignment of values and pointers to four interpreted interfaces and to error, interfaces as parameters, comma-ok and panicking assertions from interface{} to every concrete type and pointer type, one type switch over values of all types with multi-type cases and nil; each site runs under its own recover; declarations are fed to the interpreter one at a time in source order (REPL style: order independence within one evaluation is property C16, not C09); oracle = trace equality with compiled Go; distinct = distinct program texts")
 	r.Assume("go/types + cmd/compile 1.23.5 (language go1.18) decide which sites are valid and what they compute; interface-to-interface assertions on interpreted types are not generated (documented limitation); no recursive types")
-	o := e1Opts{Findings: []e1Finding{
-		{"C09-method-expr-receiver-kind", "type §T struct{ A int }\nfunc (t §T) M() int { return t.A }\nfunc §P() { v := §T{3}; rec(1, (*§T).M(&v)) }\n"},
-		{"C09-method-expr-receiver-kind", "type §U struct{ B int }\nfunc (u *§U) L() int { return u.B }\ntype §T struct{ *§U }\nfunc §P() { v := §T{&§U{4}}; rec(1, §T.L(v)) }\n"},
-		{"C09-method-expr-receiver-kind", "type §T struct{ A int }\nfunc (t §T) Error() string { return \"e\" }\nfunc §P() { v := §T{3}; var e error = &v; rec(1, e.Error()) }\n"},
-	}}
+	o := e1Opts{}
+	// regression cells for the repaired receiver-kind defect (C09-method-expr-receiver-kind)
+	regress := []string{
+		"type §T struct{ A int }\nfunc (t §T) M() int { return t.A }\nfunc §P() { v := §T{3}; rec(1, (*§T).M(&v)) }\n",
+		"type §U struct{ B int }\nfunc (u *§U) L() int { return u.B }\ntype §T struct{ *§U }\nfunc §P() { v := §T{&§U{4}}; rec(1, §T.L(v)) }\n",
+		"type §T struct{ A int }\nfunc (t §T) Error() string { return \"e\" }\nfunc §P() { v := §T{3}; var e error = &v; rec(1, e.Error()) }\n",
+	}
 	if p := fw.ReplayArg(); p != "" {
 		e1ReplayFile(r, p, o)
 		return
@@ -280,6 +261,9 @@ func checkC09(r *fw.Run) {
 	for i, e := range [][2]string{{"int", "3"}, {"string", "\"q\""}, {"float64", "1.5"}} {
 		src := strings.NewReplacer("E", e[0], "X", e[1]).Replace(c09NonStruct)
 		progs = append(progs, &Prog{ID: fmt.Sprintf("c09-nonstruct-%d", i), Src: src, Chunks: strings.Split(src, "\n//--\n"), Cell: "named-nonstruct"})
+	}
+	for i, src := range regress {
+		progs = append(progs, &Prog{ID: fmt.Sprintf("c09-regress-%d", i), Src: src, Cell: "receiver-kind-regression"})
 	}
 	r.Extra("features_generated", feat)
 	e1Run(r, progs, o)
